@@ -639,6 +639,74 @@ def shard_paths(spec):
 _WORLD: World | None = None
 
 
+def check_inst_locs(acc: core.Acc, world: World) -> None:
+    """Directory file systems the library creates itself (constraint on, by default) and hands out inside a chain:
+    instancing.get_inst_locs(map) for maps directly in sdk_content/maps, in sub-folders one and two levels below, and outside
+    any sdk_content.  Paths that leave BOTH roots (files one and two levels above sdk_content/maps, absolute names) are never
+    answered with data, through the chain and through each of its members."""
+    from pathlib import Path
+    from srctools.filesys import RootEscapeError
+    from srctools.instancing import get_inst_locs
+    base = os.path.join(world.W, 'instlocs')
+    maps = os.path.join(base, 'game', 'sdk_content', 'maps')
+    files = {os.path.join(base, 'top.txt'): b'<top>', os.path.join(base, 'game', 'g.txt'): b'<game>',
+             os.path.join(base, 'game', 'sdk_content', 'secret.txt'): b'<secret>', os.path.join(maps, 'inst.vmf'): b'<inst>',
+             os.path.join(maps, 'sub', 'm.vmf'): b'<m>', os.path.join(maps, 'sub', 'deep', 'd.vmf'): b'<d>',
+             os.path.join(base, 'loose', 'x', 'l.vmf'): b'<l>', os.path.join(base, 'loose', 'other.txt'): b'<other>'}
+    for path, data in files.items():
+        os.makedirs(os.path.dirname(path), exist_ok=True)
+        with open(path, 'wb') as f:
+            f.write(data)
+    forbidden = {b'<top>', b'<game>', b'<secret>'}
+    map_files = {'in_maps': os.path.join(maps, 'map.vmf'), 'sub': os.path.join(maps, 'sub', 'm.vmf'), 'deep': os.path.join(maps, 'sub', 'deep', 'd.vmf'),
+                 'loose': os.path.join(base, 'loose', 'x', 'l.vmf')}
+    for where, mp in map_files.items():
+        ups = []
+        for n in range(1, 6):
+            for name in ('secret.txt', 'g.txt', 'top.txt', 'other.txt'):
+                ups.append('/'.join(['..'] * n + [name]))
+                ups.append('\\'.join(['..'] * n + [name]))
+                ups.append('./' + '/'.join(['..'] * n + [name]))
+        ups += [os.path.join(base, 'game', 'sdk_content', 'secret.txt'), os.path.join(base, 'top.txt')]
+        chain = get_inst_locs(Path(mp))
+        targets = [('chain', chain)] + [(f'member{i}', m) for i, (m, _pre) in enumerate(chain.systems)]
+        for tname, fs in targets:
+            roots = [os.path.realpath(m.path) for m, _pre in chain.systems] if tname == 'chain' else [os.path.realpath(fs.path)]
+            for q in ups:
+                for op in ('in', 'getitem', 'open_bin', 'open_str'):
+                    acc.evaluations += 1
+                    case = {'inst_locs': where, 'via': tname, 'path': world.show(q), 'op': op}
+                    try:
+                        if op == 'in':
+                            data = None
+                            if q not in fs:
+                                continue
+                            # which file was found?  (only judged through the data operations below)
+                            continue
+                        elif op == 'getitem':
+                            data = read_all_c18(fs[q].open_bin)
+                        elif op == 'open_bin':
+                            data = read_all_c18(lambda: fs.open_bin(q))
+                        else:
+                            with fs.open_str(q) as fh:
+                                data = fh.read().encode()
+                    except (RootEscapeError, FileNotFoundError, KeyError, NotADirectoryError, IsADirectoryError):
+                        continue
+                    except Exception as e:  # noqa: BLE001
+                        acc.fail('foreign_exception', case, f'get_inst_locs({world.show(mp)!r}) {tname}: {op}({world.show(q)!r}) raised {type(e).__name__}: {e}', op=op)
+                        continue
+                    acc.nontrivial += 1
+                    inside = [path for path, d in files.items() if d == data and any(os.path.realpath(path).startswith(r + os.sep) for r in roots)]
+                    if data in forbidden or not inside:
+                        acc.fail('escape', case, f'get_inst_locs({world.show(mp)!r}) - roots {[world.show(r) for r in roots]} - {tname}: {op}({world.show(q)!r}) '
+                                 f'returned {data!r}, the content of a file outside every root', op=op)
+
+
+def read_all_c18(opener) -> bytes:
+    with opener() as fh:
+        return fh.read()
+
+
 def shard(spec) -> core.Acc:
     acc = core.Acc()
     world = _WORLD
@@ -673,6 +741,7 @@ def shard(spec) -> core.Acc:
             check_foreign_handles(acc, world)
             check_pattern_roots(acc, world)
             check_factory_history(acc, world)
+            check_inst_locs(acc, world)
         if n_paths:
             acc.sample({'segs': segs, 'seps': seps, 'path': world.show(p), 'configs': 'all', 'ops': 'all'}, 1)
     finally:
@@ -734,7 +803,7 @@ def run(ctx: core.Ctx) -> None:
         _WORLD = None
     ctx.rule = (f'every path string of segments from {SEGS} (first segment additionally the absolute spelling of '
                 f'W/root, W/root_evil, W/rootX with either slash), {desc}; x {len(CONFIGS)} root configurations '
-                f'{CONFIGS} x operations {OPS}; plus packlist.unify_path and the PackList entry points on every path string (<= 3 segments also behind a drive letter and colon); root folders whose own name is a glob pattern matching a sibling folder; get_filesystem() asked again after the first object was unconstrained; plus File handles created by an unconstrained / ancestor-rooted / temporarily unconstrained filesystem handed to open_bin, open_str and File.open_bin.  A (path, config, op) '
+                f'{CONFIGS} x operations {OPS}; plus packlist.unify_path and the PackList entry points on every path string (<= 3 segments also behind a drive letter and colon); root folders whose own name is a glob pattern matching a sibling folder; get_filesystem() asked again after the first object was unconstrained; the chains instancing.get_inst_locs() builds for maps at 4 places relative to sdk_content/maps, asked (whole and per member) for files 1-5 levels up in three spellings and by absolute name; plus File handles created by an unconstrained / ancestor-rooted / temporarily unconstrained filesystem handed to open_bin, open_str and File.open_bin.  A (path, config, op) '
                 f'triple is one case and is met once (the segments/separators -> string map is injective).  '
                 f'Non-trivial = the call did anything but answer "absent" for a path that stays inside the root '
                 f'(it raised RootEscapeError, found/opened/listed a file, or failed the oracle); for unify_path: it '
@@ -758,6 +827,9 @@ def replay(case: dict) -> list:
         world = World(W)
         if 'pattern_root' in case:
             check_pattern_roots(acc, world)
+            return [f for f in acc.all_failures() if f.case == case]
+        if 'inst_locs' in case:
+            check_inst_locs(acc, world)
             return [f for f in acc.all_failures() if f.case == case]
         if 'factory_history' in case:
             check_factory_history(acc, world)
